@@ -18,28 +18,38 @@ refill on demand, not an assumption.
 """
 import gc, io, os, random, shutil, threading, time, weakref, multiprocessing as mp
 from .. import tlc, trace
-from ..common import Verdict, use_repo, SEED, BUILD, ensure_dir
+from ..common import Verdict, use_repo, SEED, BUILD, REPO, ensure_dir
 
-ACTIONS = ['Start', 'AbandonNew', 'Unwind', 'DetEnc', 'Refill', 'ScanStale', 'ScanReady', 'Skip', 'FetchEnd', 'FetchMarker', 'FetchTok', 'ParseDocStart0',
+ACTIONS = ['Start', 'AbandonNew', 'Unwind', 'DetEnc', 'Refill', 'ScanStale', 'ScanReady', 'Skip', 'FetchEnd', 'FetchMarker', 'FetchTok',
+           'FetchDirective', 'ScalarStart', 'ScalarMeasure', 'ScalarEol', 'ScalarNext', 'ParseDocStart0',
            'ParseDocStart', 'ParseContent', 'ParseDocEnd', 'ApiStep', 'ApiNext', 'Abandon']
 ALLMODES = '{"scan", "parse", "load"}'
+ALLSTYLES = '{"plain", "quoted", "block", "word"}'
+HCLAUSES = ('H_Bound', 'H_Order', 'H_ReaderOrder', 'H_Dispose', 'H_Release', 'H_CallBound')
 
 
 def design_configs(tier):
     base = dict(Block=4, MaxKey=3, TermLen=1, MaxTail=1, MaxDocs=2, MaxSize=6, MaxGap=9, Modes=ALLMODES, TrackBoundary='FALSE',
-                Variant='"code"')
+                Styles='{}', MaxTok=1, Directives='TRUE', Variant='"code"')
+    # token extents: lexemes of up to MaxTok units (more than two blocks), measured the way the scanning routines do
+    tok = dict(base, Styles=ALLSTYLES, MaxTok=9, MaxSize=10, MaxGap=2, Modes='{"load"}', Directives='FALSE')
     if tier == 'quick':
-        return [('b4', base),
+        return [('b4', base), ('b4tok', tok),
                 # what sits at the read boundary (a CR or not) as a dimension of the environment
-                ('b4cr', dict(base, TrackBoundary='TRUE', MaxSize=3, MaxGap=4, Modes='{"load"}'))]
+                ('b4cr', dict(base, TrackBoundary='TRUE', MaxSize=3, MaxGap=4, Modes='{"load"}', Directives='FALSE'))]
     return [('b4', dict(base, MaxDocs=3, MaxSize=12, MaxGap=12, MaxKey=4)),
-            ('b4cr', dict(base, TrackBoundary='TRUE')),
+            ('b4tok', dict(tok, Modes=ALLMODES, MaxTok=10, MaxSize=11)),
+            ('b4tokcr', dict(tok, TrackBoundary='TRUE', MaxTok=6, MaxSize=7, Styles='{"plain", "block"}')),
+            ('b4cr', dict(base, TrackBoundary='TRUE', Directives='FALSE')),
             ('b4t2', dict(base, MaxTail=2, MaxSize=8)),
             ('b8', dict(base, Block=8, TermLen=3, MaxTail=3, MaxKey=6, MaxSize=9, MaxGap=17, Modes='{"load", "scan"}'))]
 
 
-NEGATIVE = [('early', 'H_Release'), ('eager', 'H_Order'), ('depeek', 'H_Order'), ('greedy', 'H_ReaderOrder'), ('shadow', 'H_Release'),
-            ('crjoin', 'H_ReaderOrder')]
+# known-bad designs: (variant, constants on top of the quick base, the H clause the design is expected to break first)
+NEGATIVE = [('early', {}, 'H_Release'), ('eager', {}, 'H_Order'), ('depeek', {}, 'H_Order'), ('greedy', {}, 'H_ReaderOrder'),
+            ('shadow', {}, 'H_Release'), ('crjoin', dict(TrackBoundary='TRUE'), 'H_ReaderOrder'),
+            ('window', dict(Styles='{"block", "plain"}', MaxTok=9, MaxSize=10, Modes='{"load"}'), 'H_Bound'),
+            ('dirtable', dict(Directives='TRUE'), 'H_Release')]
 
 
 def run_all(jobs, workers, concurrent):
@@ -48,7 +58,7 @@ def run_all(jobs, workers, concurrent):
 
     def one(name, kw):
         with sem:
-            out[name] = tlc.run('LazyPipe', cfg='MC_LazyPipe.cfg', workers=workers, **kw)
+            out[name] = tlc.run('LazyPipe', workers=workers, **kw)
     th = [threading.Thread(target=one, args=j) for j in jobs]
     for t in th:
         t.start()
@@ -85,12 +95,16 @@ class LogStream:
 
 
 def observed_block(yaml, be):
-    """the read size the back-end asks for: measured, not assumed"""
+    """the read size the back-end asks for: measured, not assumed (a tree on which even this probe fails is judged with
+    what the probe was asked for before it failed, or the documented size)"""
     s = LogStream(b'a: 1\n', ('full',))
-    L = yaml.SafeLoader if be == 'py' else yaml.CSafeLoader
-    for _ in yaml.scan(s, Loader=L):
+    try:
+        L = yaml.SafeLoader if be == 'py' else yaml.CSafeLoader
+        for _ in yaml.scan(s, Loader=L):
+            pass
+    except Exception:
         pass
-    return s.asked
+    return s.asked if s.asked > 0 else {'py': 4096, 'c': 16384}[be]
 
 
 # ------------------------------------------------------------------------------------------------ stream generator
@@ -122,7 +136,11 @@ def body(rnd, i, n, cls, longline):
     if n <= 0:
         return ''
     ch = FILL[cls]
-    lines = ['k%d: v%s\n' % (i, ch), 'seq:\n  - a\n  - %s\n' % (ch * 3), '"q%s": [1, 2]\n' % ch, 's: &a%d text\nr: *a%d\n' % (i, i)]
+    # every feature of the scanner / parser: plain, quoted (single, double, multi-line), literal and folded block scalars,
+    # block and flow collections, anchors and aliases, tags, complex keys
+    lines = ['k%d: v%s\n' % (i, ch), 'seq:\n  - a\n  - %s\n' % (ch * 3), '"q%s": [1, 2]\n' % ch, 's: &a%d text\nr: *a%d\n' % (i, i),
+             'b: |\n  text %s\n\n  more\n' % ch, 'o: >-\n  folded %s\n  text\n' % ch, 'f: {a: 1, b: [x, %s], c: }\n' % ch,
+             't: !!str 12\n', "g: 'it''s %s'\n" % ch, 'm: "two\\t%s\n  lines"\n' % ch, '? c%d\n: !!seq [d]\n' % i]
     out, used = [], 0
     for ln in lines:
         if used + len(ln) <= n and rnd.random() < 0.8:
@@ -181,6 +199,9 @@ def build_stream(rnd, block, ndocs, maxblocks):
         if open_doc:                 # the previous document is terminated by this '---'
             ends.append(pos)
         if explicit:
+            if not open_doc and rnd.random() < 0.5:      # directives: at the start of the stream or after '...' (and its gap)
+                emit(rnd.choice(['%YAML 1.1\n', '%TAG !e! tag:example.com,2000:app/\n',
+                                 '%YAML 1.1\n%TAG ! tag:example.com,2000:\n%TAG !e! tag:e.org,1:\n', '%YAML 1.1 # c\n']))
             emit('---\n' if rnd.random() < 0.8 or s == 0 else '--- # c\n')
         if badkdoc == i:
             cut = rnd.choice([0, len(b)]) if b else 0
@@ -220,6 +241,62 @@ def to_units(text, ends, bad, form):
     for w in want[j:]:
         off[w] = pos
     return bom + text.encode(enc), [off[e] for e in ends], (off[bad[2]] if bad else 0)
+
+
+# ------------------------------------------------------------------------------------------------ long lexemes
+# What a document ends with is a dimension of its own: one lexeme of every kind the scanner has a routine for, n units long,
+# n around and well above the refill block, and more documents behind it.  The scanner must not look further beyond the end
+# of a lexeme than a constant, whatever its length (LazyPipe.tla: ScalarMeasure / ScalarEol / ScalarNext).
+TAILKINDS = {
+    'literal': lambda x, n: '--- |\n  ' + x * n + '\n',
+    'folded': lambda x, n: '--- >\n  ' + x * n + '\n',
+    'literal-last-line': lambda x, n: '--- |\n  a\n\n  b\n  ' + x * n + '\n',
+    'literal-keep': lambda x, n: '---\nk: |+\n  ' + x * n + '\n\n',
+    'plain': lambda x, n: '--- ' + x * n + '\n',
+    'plain-value': lambda x, n: '---\nk: ' + x * n + '\n',
+    'plain-continued': lambda x, n: '---\nk: a\n  ' + x * n + '\n',
+    'plain-item': lambda x, n: '---\n- a\n- ' + x * n + '\n',
+    'complex-key': lambda x, n: '---\n? ' + x * n + '\n: v\n',
+    'single': lambda x, n: "--- '" + x * n + "'\n",
+    'double': lambda x, n: '--- "' + x * n + '"\n',
+    'double-blanks': lambda x, n: '--- "a' + ' ' * n + 'b"\n',
+    'double-continued': lambda x, n: '--- "a\n  ' + x * n + '"\n',
+    'flow-plain': lambda x, n: '--- [a, ' + x * n + ']\n',
+    'comment': lambda x, n: '--- a\n#' + x * n + '\n',
+    'comment-inline': lambda x, n: '--- a #' + x * n + '\n',
+    'comment-indented': lambda x, n: '---\nk:\n  - a\n  #' + x * n + '\n',
+    'tag': lambda x, n: '--- !' + 'x' * n + ' v\n',
+    'tag-verbatim': lambda x, n: '--- !<' + 'x' * n + '> v\n',
+    'tag-alone': lambda x, n: '--- !!' + 'x' * n + '\n',
+    'anchor': lambda x, n: '--- &' + 'x' * n + ' v\n',
+    'alias': lambda x, n: '---\n- &' + 'x' * n + ' v\n- *' + 'x' * n + '\n',
+    'blanks': lambda x, n: '--- a' + ' ' * n + '\n',
+    'blank-line': lambda x, n: '--- a\n' + ' ' * n + '\n',
+    'empty-lines': lambda x, n: '--- a\n' + '\n' * n,
+    'indentation': lambda x, n: '---\nk:\n' + ' ' * n + 'v\n',
+    'directive-behind': lambda x, n: '--- a\n...\n%TAG !e! tag:' + 'x' * n + '\n',
+    'directive-comment-behind': lambda x, n: '--- a\n...\n%YAML 1.1 #' + x * n + '\n',
+}
+TAILTAGGED = ('tag', 'tag-verbatim', 'tag-alone')            # unknown tags: load_all raises a ConstructorError for this document
+TAILLENS = [('b-2', lambda b: b - 2), ('b+1', lambda b: b + 1), ('2b-1', lambda b: 2 * b - 1), ('2b+2', lambda b: 2 * b + 2),
+            ('3b+5', lambda b: 3 * b + 5), ('5b+1', lambda b: 5 * b + 1), ('9b+3', lambda b: 9 * b + 3), ('17b+1', lambda b: 17 * b + 1)]
+
+
+def build_tail(rnd, block, kind, n, cls):
+    """-> (text, ends, bad): a small document, the document that ends with the lexeme, four small documents, one long one"""
+    lead = '--- # head\nk0: v\n' + filler(rnd, rnd.choice([0, 7, block // 3, block - 9, block + 1]), cls, False)
+    docs = [lead, TAILKINDS[kind](FILL[cls], n)]
+    docs += ['---\nk%d: v\n' % i for i in range(4)]
+    docs.append('---\nlast: v\n' + filler(rnd, 3 * block + 77, cls, False))
+    text = ''.join(docs)
+    ends, pos = [], 0
+    for i, d in enumerate(docs):
+        pos += len(d)
+        ends.append(pos)
+    if '...\n' in docs[1]:                 # this document ends at its '...'
+        ends[1] = len(docs[0]) + docs[1].index('...\n')
+    bad = ('constructor', 2, len(docs[0])) if kind in TAILTAGGED else None
+    return text, ends, bad
 
 
 # ------------------------------------------------------------------------------------------------ record-structured streams
@@ -297,25 +374,50 @@ def file_slack(kind, path, enc, block):
 
 
 # ------------------------------------------------------------------------------------------------ one observed iteration
+_SEEN = {'disposals': 0, 'refs': []}
+_LC = {}
+
+
+def loader_class(yaml, be):
+    """SafeLoader / CSafeLoader subclass that counts dispose() calls and hands out weak references to its instances"""
+    if be not in _LC:
+        base = yaml.SafeLoader if be == 'py' else yaml.CSafeLoader
+
+        class L(base):
+            def __init__(self, stream):
+                _SEEN['refs'].append(weakref.ref(self))
+                base.__init__(self, stream)
+
+            def dispose(self):
+                _SEEN['disposals'] += 1
+                base.dispose(self)
+        _LC[be] = L
+    return _LC[be]
+
+
+CRASHED = {'yields': [], 'outcome': 'exception', 'disposals': 0, 'readsAfter': 0, 'atcall': 0, 'built': 0, 'alive': [], 'held': '',
+           'block': 0, 'calls': 0, 'nitems': 0}
+
+
 def iterate(yaml, api, be, data, rule, seed, abandon, fileof=None):
+    """total: whatever the tree under test does inside an iteration is an observation (outcome "exception"), never a crash
+    of the check"""
+    try:
+        return _iterate(yaml, api, be, data, rule, seed, abandon, fileof)
+    except Exception as e:
+        return dict(CRASHED, errclass=type(e).__name__)
+
+
+def _iterate(yaml, api, be, data, rule, seed, abandon, fileof=None):
     """abandon: None | ('doc', k) after the k-th delivered document | ('item', j) after the j-th yielded item.
     Release is observed by its effect: with the cyclic garbage collector disabled, weak references to the loader and to
     the stream must be dead as soon as the generator has been closed and dropped (reference counting frees what no cycle
     holds)."""
-    base = yaml.SafeLoader if be == 'py' else yaml.CSafeLoader
-    seen = {'disposals': 0, 'refs': []}
-
-    class L(base):
-        def __init__(self, stream):
-            seen['refs'].append(weakref.ref(self))
-            base.__init__(self, stream)
-
-        def dispose(self):
-            seen['disposals'] += 1
-            base.dispose(self)
-    gc.collect()
-    gc.disable()
-    try:
+    seen = _SEEN
+    seen['disposals'], seen['refs'] = 0, []
+    assert not gc.isenabled()          # the worker runs with the cycle collector off (collect() between batches)
+    L = loader_class(yaml, be)
+    if True:
         if fileof is None:
             stream = LogStream(data, rule, seed)
             where = lambda: stream.pos
@@ -349,7 +451,7 @@ def iterate(yaml, api, be, data, rule, seed, abandon, fileof=None):
                         delivered, open_doc = open_doc, True
                     elif isinstance(item, (yaml.DocumentEndToken, yaml.StreamEndToken)):
                         delivered, open_doc = open_doc, False
-                    elif not isinstance(item, yaml.StreamStartToken):
+                    elif not isinstance(item, (yaml.StreamStartToken, yaml.DirectiveToken)):     # directives precede a document
                         open_doc = True
                 if delivered:
                     yields.append({'k': len(yields) + 1, 'req': where()})
@@ -363,8 +465,12 @@ def iterate(yaml, api, be, data, rule, seed, abandon, fileof=None):
             outcome, err = 'exception', type(e).__name__
         item = None
         calls_before = nreads()
-        if gen is not None:
-            gen.close()
+        try:
+            if gen is not None:
+                gen.close()
+        except Exception as e:          # close() runs the finally clause of the code under test
+            if outcome in ('done', 'abandoned'):
+                outcome, err = 'exception', 'close:' + type(e).__name__
         del gen
         reads_after = nreads() - calls_before
         block, calls = (stream.asked, stream.calls) if fileof is None else (0, 0)
@@ -387,32 +493,46 @@ def iterate(yaml, api, be, data, rule, seed, abandon, fileof=None):
         if fileof is not None:
             keep.close()
             del keep
-    finally:
-        gc.enable()
-    del L
-    gc.collect()
+    if alive:
+        gc.collect()
     return {'yields': yields, 'outcome': outcome, 'errclass': err, 'disposals': seen['disposals'], 'readsAfter': reads_after,
             'atcall': atcall, 'built': len(seen['refs']),
-            'alive': alive, 'held': held, 'block': block, 'calls': calls}
+            'alive': alive, 'held': held, 'block': block, 'calls': calls, 'nitems': nitems}
 
 
 def maxwidth(text, enc):
     return max([len(ch.encode(enc, 'surrogatepass')) for ch in set(text)] or [1])
 
 
+APIS = ('scan', 'parse', 'compose_all', 'load_all')
+NOBAD = {'kind': '-', 'doc': 0, 'at': 0}
+
+
+def points(n, tier):
+    """the abandonment points tried for an iteration of n items: every one of 0..n (0: before the first item is asked
+    for; n: after the last one, the generator not yet exhausted) up to a cap, beyond it the first ones and an even spread"""
+    cap = 16 if tier == 'quick' else 120
+    if n <= cap:
+        return list(range(n + 1))
+    h = cap // 2
+    return sorted(set(range(h)) | {h + ((n - h) * i) // h for i in range(h + 1)})
+
+
 def work(args):
-    seeds, tier, blocks = args
+    jobs, tier, blocks = args
     yaml = use_repo()
     traces, meta = [], []
     tmp = ensure_dir(os.path.join(BUILD, 'c18_files', str(os.getpid())))
+    gc.collect()
+    gc.disable()            # release is observed by its effect, the cycle collector out of the picture (see iterate)
 
     def record(o, api, be, uends, bad, ubad, block, slack, m):
         b = {'kind': '-', 'doc': 0, 'at': 0}
         if bad and api in RAISES[bad[0]]:
             b = {'kind': 'reader' if bad[0] == 'reader' else 'other', 'doc': bad[1], 'at': ubad}
-        traces.append({'block': block, 'slack': slack, 'api': api, 'be': be, 'ends': uends, 'yields': o['yields'],
+        traces.append({'judge': 'all', 'block': block, 'slack': slack, 'api': api, 'be': be, 'ends': uends, 'yields': o['yields'],
                        'outcome': o['outcome'], 'bad': b, 'disposals': o['disposals'], 'readsAfter': o['readsAfter'],
-                       'alive': o['alive'], 'atcall': o['atcall'], 'built': o['built']})
+                       'alive': o['alive'], 'atcall': o['atcall'], 'built': o['built'], 'abandons': []})
         meta.append(dict(m, be=be, api=api, ndocs=len(uends), held=o['held'], errclass=o['errclass']))
 
     def through_file(sd, be, rnd, text, ends, bad, apis, m):
@@ -438,8 +558,65 @@ def work(args):
                        dict(m, file=kind, units=len(data), slack=slack, abandon_after=list(ab) if ab else None))
         os.remove(path)
 
-    for sd in seeds:
+    def release(data, m):
+        """every abandonment point of every entry point of both back-ends over one stream: one trace per iteration, the
+        abandoned repetitions as its `abandons`"""
+        for be in ('py', 'c'):
+            for api in APIS:
+                full = iterate(yaml, api, be, data, ('full',), 0, None)
+                ab = []
+                for j in points(full['nitems'], tier):
+                    o = iterate(yaml, api, be, data, ('full',), 0, ('item', j))
+                    if o['outcome'] == 'abandoned':
+                        ab.append({'at': j, 'built': o['built'], 'disposals': o['disposals'], 'readsAfter': o['readsAfter'],
+                                   'alive': o['alive'], 'held': o['held']})
+                traces.append({'judge': 'release', 'block': 0, 'slack': 0, 'api': api, 'be': be, 'ends': [], 'yields': [],
+                               'outcome': full['outcome'], 'bad': NOBAD, 'disposals': full['disposals'],
+                               'readsAfter': full['readsAfter'], 'alive': full['alive'], 'atcall': full['atcall'],
+                               'built': full['built'], 'abandons': ab})
+                meta.append(dict(m, be=be, api=api, ndocs=0, held=full['held'], errclass=full['errclass'], items=full['nitems'],
+                                 abandon_after=None))
+
+    def tail(idx):
+        """a document that ends with a long lexeme: kind x length enumerated by index; stream form, read rule, filler and
+        alignment seeded"""
+        names = sorted(TAILKINDS)
+        kind, (lname, lfun) = names[idx % len(names)], TAILLENS[idx // len(names)]
+        rnd = random.Random(SEED * 7919 + idx)
+        form = ['text', 'utf-8', 'utf-16-le'][(idx + idx // len(names) + SEED) % 3]
+        cls = rnd.choice(['ascii', 'ascii', 'b2', 'b3', 'b4'])
+        for be in ('py', 'c'):
+            block = blocks[be]
+            text, ends, bad = build_tail(rnd, block, kind, lfun(block), cls)
+            data, uends, ubad = to_units(text, ends, bad, form)
+            rule = rnd.choice([('full',), ('full',), ('chunk', block // 2), ('chunk', 1000), ('rand', block)])
+            m = {'seed': idx, 'form': form, 'rule': list(rule), 'units': len(data), 'bad': list(bad) if bad else None,
+                 'tail': kind, 'length': lname, 'text_head': text[:60]}
+            for api in APIS:
+                ab = ('doc', 5)              # what follows the lexeme matters, not how long the iteration goes on
+                o = iterate(yaml, api, be, data, rule, idx, ab)
+                record(o, api, be, uends, bad, ubad, block, 0, dict(m, asked=o['block'], abandon_after=list(ab)))
+
+    for job, sd in jobs:
+        if job == 'tail':
+            tail(sd)
+            gc.collect()
+            continue
+        if job == 'corpus':
+            with open(sd, 'rb') as f:
+                data = f.read()
+            release(data, {'seed': 0, 'form': 'corpus', 'source': os.path.basename(sd), 'units': len(data), 'bad': None})
+            gc.collect()
+            continue
         rnd = random.Random(sd)
+        if job == 'gen':
+            # a small generated stream with every feature (and possibly one malformed document), every abandonment point
+            text, ends, bad = build_stream(rnd, 200, rnd.choice([1, 2, 3, 4, 6]), 3)
+            data = to_units(text, ends, bad, rnd.choice(['text', 'utf-8', 'utf-16-le']))[0]
+            release(data, {'seed': sd, 'form': 'generated', 'units': len(data), 'bad': list(bad) if bad else None,
+                           'text_head': text[:120]})
+            gc.collect()
+            continue
         for be in ('py', 'c'):
             block = blocks[be]
             if sd % 4 == 3:
@@ -459,9 +636,9 @@ def work(args):
                     ab = None if (api == full_api and len(uends) <= 1500) else \
                         ('doc', min(len(uends), (300 + sd % 200) if api == full_api else (40 + sd % 50)))
                     o = iterate(yaml, api, be, data, rule, sd, ab)
-                    record(o, api, be, uends, None, 0, o['block'] or block, 0, dict(m, abandon_after=list(ab) if ab else None))
+                    record(o, api, be, uends, None, 0, block, 0, dict(m, asked=o['block'], abandon_after=list(ab) if ab else None))
                 o = iterate(yaml, full_api, be, data, rule, sd, ('doc', 0))
-                record(o, full_api, be, uends, None, 0, o['block'] or block, 0, dict(m, abandon_after=['doc', 0]))
+                record(o, full_api, be, uends, None, 0, block, 0, dict(m, asked=o['block'], abandon_after=['doc', 0]))
                 if j % 2 == 0:
                     through_file(sd, be, rnd, data, uends, None, [full_api], m)
                 continue
@@ -497,35 +674,81 @@ def work(args):
                     plans.append(('item', rnd.randint(1, 4 + 6 * len(ends))))
                 for ab in plans:
                     o = iterate(yaml, api, be, data, rule, sd, ab)
-                    record(o, api, be, uends, bad, ubad, o['block'] or block, 0, dict(m, abandon_after=list(ab) if ab else None))
+                    record(o, api, be, uends, bad, ubad, block, 0, dict(m, asked=o['block'], abandon_after=list(ab) if ab else None))
             if sd % 2 == 0:          # "the stream" is also a real file: text / buffered / raw, observed at the descriptor
                 through_file(sd, be, rnd, text, ends, bad, rnd.sample(apis, 2), m)
+        gc.collect()
+    gc.enable()
     shutil.rmtree(tmp, ignore_errors=True)
     return traces, meta
 
 
 # ------------------------------------------------------------------------------------------------ main
+def observe(parts, tier, blocks, procs=int(os.environ.get('VERIF_C18_PROCS', '12'))):
+    """work() over the parts in a pool; a worker process that dies (the tree under test took the interpreter down) is an
+    observation too: the part is repeated job by job, each in a process of its own, and the job that cannot be finished
+    yields one record with outcome "exception" """
+    from concurrent.futures import ProcessPoolExecutor
+    from concurrent.futures.process import BrokenProcessPool
+    outs, lost = [], []
+    try:
+        with ProcessPoolExecutor(procs) as ex:
+            outs = list(ex.map(work, [(p_, tier, blocks) for p_ in parts], chunksize=1))
+        return outs
+    except BrokenProcessPool:
+        pass
+    outs = []
+    for job in [j_ for p_ in parts for j_ in p_]:
+        try:
+            with ProcessPoolExecutor(1) as ex:
+                outs.append(ex.submit(work, ([job], tier, blocks)).result())
+        except BrokenProcessPool:
+            t = dict(CRASHED, judge='all', block=blocks['py'], slack=0, api='load_all', be='py', ends=[1], bad=NOBAD, abandons=[])
+            t.pop('held'), t.pop('calls'), t.pop('nitems')
+            outs.append(([t], [{'seed': job[1], 'form': str(job[0]), 'bad': None, 'be': 'py', 'api': 'load_all', 'ndocs': 1,
+                                'held': '', 'errclass': 'worker process died', 'abandon_after': None}]))
+    return outs
+
+
 def main(tier, replay=None):
     v = Verdict('C18', tier)
-    yaml = use_repo()
     q = tier == 'quick'
     t0 = time.time()
     # (a) design check and negative controls
     dc = design_configs(tier)
-    jobs = [(n, dict(constants=c, tag='C18_' + n, timeout=3000, heap='5g')) for n, c in dc]
-    jobs += [('neg-' + var, dict(constants=dict(dc[0][1], MaxDocs=2, MaxSize=6, MaxGap=10, MaxTail=1, Variant='"%s"' % var,
-                                               TrackBoundary='TRUE' if var == 'crjoin' else 'FALSE'),
-                                tag='C18_neg_' + var, timeout=900, heap='3g', coverage=False)) for var, _ in NEGATIVE]
-    # (b) run the real code while TLC works
-    blocks = {'py': observed_block(yaml, 'py'), 'c': observed_block(yaml, 'c')}
-    nstreams = 160 if q else 1600
-    seeds = [SEED * 1000003 + i for i in range(nstreams)]
+    qbase = design_configs('quick')[0][1]
+    jobs = [(n, dict(cfg='MC_LazyPipe.cfg', constants=c, tag='C18_' + n, timeout=3000, heap='3g' if q else '5g')) for n, c in dc]
+    # the controls are checked against the H clauses only (MC_LazyPipeH.cfg)
+    jobs += [('neg-' + var, dict(cfg='MC_LazyPipeH.cfg', constants=dict(dict(qbase, MaxGap=10, Directives='FALSE'), Variant='"%s"' % var, **extra),
+                                tag='C18_neg_' + var, timeout=900, heap='2g', coverage=False)) for var, extra, _ in NEGATIVE]
     res = {}
-    th = threading.Thread(target=lambda: res.update(run_all(jobs, workers=4 if q else 5, concurrent=5 if q else 4)))
+    tw, tc = [int(x) for x in os.environ.get('VERIF_C18_TLC', '4,5' if q else '5,4').split(',')]      # workers per TLC run, runs side by side
+    th = threading.Thread(target=lambda: res.update(run_all(jobs, workers=tw, concurrent=tc)))
     th.start()
-    nch = 64
-    with mp.Pool(12) as pool:
-        outs = pool.map(work, [(seeds[i::nch], tier, blocks) for i in range(nch) if seeds[i::nch]], chunksize=1)
+    # (b) run the real code while TLC works
+    try:
+        yaml = use_repo()
+        blocks = {'py': observed_block(yaml, 'py'), 'c': observed_block(yaml, 'c')}
+    except Exception as e:                 # a tree that cannot even be imported delivers nothing
+        yaml, blocks = None, {'py': 4096, 'c': 16384}
+        v.note('the package under test cannot be imported: %s: %s' % (type(e).__name__, e))
+    nstreams = 160 if q else 1600
+    work_jobs = [('seed', SEED * 1000003 + i) for i in range(nstreams)]
+    ntail = len(TAILKINDS) * (6 if q else len(TAILLENS))
+    work_jobs += [('tail', i) for i in range(ntail)]
+    cdir = os.path.join(REPO, 'tests', 'legacy_tests', 'data')
+    corpus = sorted(f for f in (os.listdir(cdir) if os.path.isdir(cdir) else []) if os.path.isfile(os.path.join(cdir, f)))
+    work_jobs += [('corpus', os.path.join(cdir, f)) for f in corpus]
+    ngen = 60 if q else 600
+    work_jobs += [('gen', SEED * 1000003 + 5000000 + i) for i in range(ngen)]
+    nch = 96
+    if yaml is None:
+        t = dict(CRASHED, judge='all', block=4096, slack=0, api='load_all', be='py', ends=[1], bad=NOBAD, abandons=[])
+        t.pop('held'), t.pop('calls'), t.pop('nitems')
+        outs = [([t], [{'seed': 0, 'form': 'import', 'bad': None, 'be': 'py', 'api': 'load_all', 'ndocs': 1, 'held': '',
+                        'errclass': 'ImportError', 'abandon_after': None}])]
+    else:
+        outs = observe([work_jobs[i::nch] for i in range(nch) if work_jobs[i::nch]], tier, blocks)
     th.join()
     phases = {'tlc+observe': round(time.time() - t0, 1)}
     states = trans = 0
@@ -544,12 +767,12 @@ def main(tier, replay=None):
     if unfired:
         raise SystemExit('machinery failure: LazyPipe.tla actions never taken: %s' % unfired)
     controls = {}
-    for var, inv in NEGATIVE:
+    for var, _x, inv in NEGATIVE:
         r = res['neg-' + var]
         controls[var] = r.violated
         states += r.distinct
         trans += r.generated
-        if not r.violated:
+        if not set(r.violated) & set(HCLAUSES):
             raise SystemExit('machinery failure: the known-bad design "%s" satisfies H_Lazy in LazyPipe.tla (vacuous oracle)' % var)
     t0 = time.time()
     traces = [t for o in outs for t in o[0]]
@@ -561,14 +784,19 @@ def main(tier, replay=None):
     for t in traces:
         for y in t['yields']:
             if y['k'] <= len(t['ends']):
-                worst[t['be']] = max(worst[t['be']], y['req'] - t['ends'][y['k'] - 1])
+                worst[t['be']] = max(worst[t['be']], y['req'] - t['slack'] - t['ends'][y['k'] - 1])
+    # Block is ONE number per back-end (the statement: "a fixed number of characters"), measured by a probe; a read(n)
+    # argument that varies with the stream is reported
+    varying = sorted({(t['be'], m['asked']) for t, m in zip(traces, meta) if m.get('asked') and m['asked'] > blocks[t['be']]})
+    if varying:
+        v.note('spec-drift C18/block: read(n) was called with a larger n than the probe saw %s: %s' % (blocks, varying[:6]))
     for t, m, (ok, why, at) in zip(traces, meta, verdicts):
         if not ok:
             v.violation({'clause': why, 'backend': t['be'], 'api': t['api'], 'form': m['form'],
                          'bad': (m['bad'] or [None])[0]},
                         {'input': m, 'block': t['block'], 'ends': t['ends'][:60], 'yields': t['yields'][:60],
                          'outcome': t['outcome'], 'at': at, 'disposals': t['disposals'], 'readsAfter': t['readsAfter'],
-                         'alive': t['alive']})
+                         'alive': t['alive'], 'abandons_not_released': [a for a in t['abandons'] if a['alive'] or not a['disposals']][:5]})
     # beyond the statement (errors / complete iterations): what survived is reported, never a verdict
     unreleased = {}
     for t, m in zip(traces, meta):
@@ -587,9 +815,16 @@ def main(tier, replay=None):
     for t in traces:
         k = t['outcome'] + ('/' + t['bad']['kind'] if t['bad']['kind'] != '-' else '')
         kinds[k] = kinds.get(k, 0) + 1
-    v.cov = {'states': states, 'transitions': trans, 'exhaustive': True, 'traces_validated_against_impl': len(traces),
-             'streams': nstreams * 2, 'observed_block': blocks, 'largest_overshoot_units': worst, 'outcomes': kinds,
-             'negative_controls_violate': controls, 'abandoned_iterations': sum(1 for t in traces if t['outcome'] == 'abandoned'), 'actions_fired': fired, 'distinct_nontrivial': nontrivial,
+    fam = {}
+    for t, m in zip(traces, meta):
+        f = 'long-lexeme' if 'tail' in m else m['form'] if m['form'] in ('corpus', 'generated') else 'records' if 'layout' in m else 'seeded'
+        x = fam.setdefault(f, {'iterations': 0, 'abandoned': 0})
+        x['iterations'] += 1 + len(t['abandons'])
+        x['abandoned'] += len(t['abandons']) + (t['outcome'] == 'abandoned')
+    v.cov = {'states': states, 'transitions': trans, 'exhaustive': True,
+             'traces_validated_against_impl': len(traces) + sum(len(t['abandons']) for t in traces),
+             'streams': nstreams * 2 + ntail * 2 + len(corpus) + ngen, 'families': fam, 'observed_block': blocks, 'largest_overshoot_units': worst, 'outcomes': kinds,
+             'negative_controls_violate': controls, 'abandoned_iterations': sum(len(t['abandons']) + (t['outcome'] == 'abandoned') for t in traces), 'actions_fired': fired, 'distinct_nontrivial': nontrivial,
              'rule': 'non-trivial = at least two documents and more than three blocks of input',
              'samples': [dict(meta[i], yields=traces[i]['yields'][:4], ends=traces[i]['ends'][:4]) for i in range(0, min(len(meta), 400), 137)],
              'configs': {n: c for n, c in dc}, 'phase_seconds': phases}
